@@ -69,3 +69,8 @@ CORPUS += [
     Mut('c01-benign-branch-lengths-returned-contiguous', 'torchtree/evolution/tree_model.py', 'UnRootedTreeModel.branch_lengths', 'return self._branch_lengths.tensor',
         'return self._branch_lengths.tensor.contiguous()', benign=True),
 ]
+CORPUS += [
+    Mut('c01-strict-clock-keeps-the-rate-view-of-construction', 'torchtree/evolution/branch_model.py', '', "        self.branch_count = tree.taxa_count * 2 - 2\n\n    @property\n    def rates(self) -> torch.Tensor:\n        return self._rates.tensor.expand(",
+        "        self.branch_count = tree.taxa_count * 2 - 2\n        self._view = self._rates.tensor.expand([-1] * (self._rates.tensor.dim() - 1) + [self.branch_count])\n\n    @property\n    def cached_rates(self) -> torch.Tensor:\n        return self._view\n\n    @property\n    def rates(self) -> torch.Tensor:\n        return self._rates.tensor.expand(",
+        mode='text', expect=[('C01.H', 'StrictClockModel.__init__::self._view-is-not-a-snapshot-of-a-parameter')]),
+]
